@@ -146,6 +146,17 @@ class Exec(MonitorMixin, DictMixin, StmtMixin, CallMixin, BuiltinMixin, ExprMixi
 
     def check_post(self, val, st: State):
         c = self.c
+        if hasattr(self, "flush_writebacks"):
+            self.flush_writebacks(st)
+        if c.monitor:
+            self.oblige(st, z3.BoolVal(True), "lock-discipline", "protected state only touched under its lock", name=f"{c.qual}::lock-discipline")
+        if c.returns:
+            try:
+                rs = self.parse_sort(c.returns)
+                if rs.kind in ("opt", "real"):
+                    val = self.coerce_arg(val, rs, st)
+            except Unsupported:
+                pass
         env = {"result": val}
         if st.old is not None:
             # parameter names in postconditions denote the values / references passed in
